@@ -5,6 +5,7 @@ HOOK_COMMITS = ["afa3aa0"]
 
 # property -> (Lean module, [theorems that decide it]); audited with `#print axioms` on every run
 THEOREMS = {
+    "C06": ("TrVerif.Props.C06", ["Tr.C06_totals"]),
 }
 
 _CORR = ("Residual risk = model != code, measured on every run by the correspondence (seeded generators -> C++ harness built from "
